@@ -18,7 +18,7 @@ import (
 
 var prop = flag.String("prop", "C02", "C02|C03")
 
-var theRig *rig
+var theRig, theRigH2 *rig
 
 func binDir() string {
 	wd, _ := os.Getwd()
@@ -39,13 +39,26 @@ func initRig(tier string) {
 	}
 	var err error
 	for i := 0; i < 3; i++ {
-		theRig, err = startRig(binDir())
+		theRig, err = startRig(binDir(), false)
 		if err == nil {
-			return
+			break
 		}
 		theRig = nil
 	}
-	rigErr = "the black-box rig (proxy, agent, backend processes) did not come up: " + err.Error()
+	if theRig == nil {
+		rigErr = "the black-box rig (proxy, agent, backend processes) did not come up: " + err.Error()
+		return
+	}
+	for i := 0; i < 3; i++ {
+		theRigH2, err = startRig(binDir(), true)
+		if err == nil {
+			return
+		}
+		theRigH2 = nil
+	}
+	rigErr = "the black-box rig with the HTTP/2 backend did not come up: " + err.Error()
+	theRig.stop()
+	theRig = nil
 }
 
 var rigErr string
@@ -105,6 +118,7 @@ var (
 )
 
 type c02Case struct {
+	h2                   bool
 	method, target, host string
 	hs                   hdrSet
 	size                 int
@@ -121,7 +135,7 @@ func buildC02(tier string) {
 			for hi, h := range c02Hosts {
 				for si, hs := range c02Headers {
 					if !withBody[m] {
-						c02Cases = append(c02Cases, c02Case{m, t, h, hs, 0, "none"})
+						c02Cases = append(c02Cases, c02Case{false, m, t, h, hs, 0, "none"})
 						continue
 					}
 					for zi, sz := range c02Sizes {
@@ -136,11 +150,18 @@ func buildC02(tier string) {
 							if fr == "chunk1" && sz > 5000 && (ti+si)%4 != 0 {
 								continue
 							}
-							c02Cases = append(c02Cases, c02Case{m, t, h, hs, sz, fr})
+							c02Cases = append(c02Cases, c02Case{false, m, t, h, hs, sz, fr})
 						}
 					}
 				}
 			}
+		}
+	}
+	// the same requests towards an HTTP/2 (h2c) backend (agent --force-http2): every 3rd / every member
+	for i, c := range append([]c02Case{}, c02Cases...) {
+		if tier == "thorough" || i%3 == 0 {
+			c.h2 = true
+			c02Cases = append(c02Cases, c)
 		}
 	}
 	// large bodies
@@ -153,13 +174,17 @@ func buildC02(tier string) {
 			if sz > 1<<21 && fr == "chunk1000" {
 				continue
 			}
-			c02Cases = append(c02Cases, c02Case{"POST", "/upload?x=1", "", c02Headers[2], sz, fr}, c02Case{"PUT", "/a%2Fb", "other.example:8443", c02Headers[6], sz, fr})
+			c02Cases = append(c02Cases, c02Case{false, "POST", "/upload?x=1", "", c02Headers[2], sz, fr}, c02Case{false, "PUT", "/a%2Fb", "other.example:8443", c02Headers[6], sz, fr})
 		}
 	}
 }
 
 func (c c02Case) String() string {
-	return fmt.Sprintf("%s %s host=%q headers=%s body=%d/%s", c.method, clipS(c.target), c.host, c.hs.name, c.size, c.framing)
+	p := ""
+	if c.h2 {
+		p = "[h2c backend] "
+	}
+	return p + fmt.Sprintf("%s %s host=%q headers=%s body=%d/%s", c.method, clipS(c.target), c.host, c.hs.name, c.size, c.framing)
 }
 
 func clipS(s string) string {
@@ -180,6 +205,9 @@ func evalC02(tier string, i int) vx.Exec {
 	host := c.host
 	if host == "" {
 		host = theRig.proxyAddr
+		if c.h2 {
+			host = theRigH2.proxyAddr
+		}
 	}
 	var sb bytes.Buffer
 	fmt.Fprintf(&sb, "%s %s HTTP/1.1\r\nHost: %s\r\nX-Case: %s\r\n", c.method, c.target, host, id)
@@ -207,8 +235,12 @@ func evalC02(tier string, i int) vx.Exec {
 	default:
 		sb.WriteString("\r\n")
 	}
-	resp, err := theRig.roundTrip(id, sb.Bytes(), 60*time.Second)
-	seen := theRig.takeSeen(id)
+	rg := theRig
+	if c.h2 {
+		rg = theRigH2
+	}
+	resp, err := rg.roundTrip(id, sb.Bytes(), 60*time.Second)
+	seen := rg.takeSeen(id)
 	x.Nontrivial = true
 	if err != nil && len(resp) == 0 {
 		x.Violations = append(x.Violations, fmt.Sprintf("NORESPONSE: %s: %v", c, err))
@@ -253,6 +285,12 @@ func evalC02(tier string, i int) vx.Exec {
 			continue
 		}
 		got := seen.header[k]
+		if c.h2 && k == "Cookie" {
+			// RFC 7540 8.1.2.5: an HTTP/2 endpoint concatenates cookie crumbs with "; " before
+			// handing them to the application: the rig's own h2c server does that
+			got = []string{strings.Join(got, "; ")}
+			vals = []string{strings.Join(vals, "; ")}
+		}
 		// a proxy may combine repeated fields into one comma-separated value only for Cookie? no: demand the same list
 		if strings.Join(got, "\x00") != strings.Join(vals, "\x00") {
 			x.Violations = append(x.Violations, fmt.Sprintf("HEADER: field %s arrived as %q, the client sent %q (%s)", k, clipVals(got), clipVals(vals), c))
@@ -289,6 +327,7 @@ func firstDiff(a, b []byte) int {
 // ---------------- C03 ----------------
 
 type c03Case struct {
+	h2       bool
 	method   string
 	status   int
 	hs       hdrSet
@@ -336,7 +375,7 @@ func buildC03(tier string) {
 								if tier != "thorough" && k%3 != 0 {
 									continue
 								}
-								c03Cases = append(c03Cases, c03Case{m, st, hs, sz, fr, tr, in})
+								c03Cases = append(c03Cases, c03Case{false, m, st, hs, sz, fr, tr, in})
 							}
 						}
 					}
@@ -345,12 +384,26 @@ func buildC03(tier string) {
 		}
 	}
 	for _, tr := range []string{"none", "t2d"} {
-		c03Cases = append(c03Cases, c03Case{"GET", 200, c03Headers[1], 1<<20 + 1, "chunkall", tr, "none"}, c03Case{"GET", 200, c03Headers[0], 1<<20 + 1, "cl", "none", "none"})
+		c03Cases = append(c03Cases, c03Case{false, "GET", 200, c03Headers[1], 1<<20 + 1, "chunkall", tr, "none"}, c03Case{false, "GET", 200, c03Headers[0], 1<<20 + 1, "cl", "none", "none"})
+	}
+	// the same responses from an HTTP/2 (h2c) backend; hop-by-hop fields and 100-continue do not exist there
+	for i, c := range append([]c03Case{}, c03Cases...) {
+		if c.hs.name == "hop" || c.interim == "100" || c.trailers == "hopname" {
+			continue
+		}
+		if tier == "thorough" || i%2 == 0 {
+			c.h2 = true
+			c03Cases = append(c03Cases, c)
+		}
 	}
 }
 
 func (c c03Case) String() string {
-	return fmt.Sprintf("%s -> %d headers=%s body=%d/%s trailers=%s interim=%s", c.method, c.status, c.hs.name, c.size, c.framing, c.trailers, c.interim)
+	p := ""
+	if c.h2 {
+		p = "[h2c backend] "
+	}
+	return p + fmt.Sprintf("%s -> %d headers=%s body=%d/%s trailers=%s interim=%s", c.method, c.status, c.hs.name, c.size, c.framing, c.trailers, c.interim)
 }
 
 func evalC03(tier string, i int) vx.Exec {
@@ -443,10 +496,47 @@ func evalC03(tier string, i int) vx.Exec {
 		}
 	}
 	script.raw = sb.Bytes()
-	theRig.setScript(id, script)
-	req := fmt.Sprintf("%s /resp HTTP/1.1\r\nHost: %s\r\nX-Case: %s\r\nTE: trailers\r\nConnection: close, TE\r\n\r\n", c.method, theRig.proxyAddr, id)
-	raw, err := theRig.roundTrip(id, []byte(req), 60*time.Second)
-	theRig.takeSeen(id)
+	rg := theRig
+	if c.h2 {
+		rg = theRigH2
+		script.status = c.status
+		script.header = http.Header{"X-Case": {id}}
+		for _, l := range c.hs.lines {
+			kv := strings.SplitN(l, ":", 2)
+			script.header.Add(kv[0], strings.TrimSpace(kv[1]))
+		}
+		switch c.interim {
+		case "103":
+			script.interim = []http.Header{{"Link": {"</style.css>; rel=preload"}}}
+		case "two":
+			script.interim = []http.Header{{"Link": {"</a>; rel=preload"}}, {"Link": {"</b>; rel=preload"}}}
+		}
+		if !noBody {
+			script.announceCL = c.framing == "cl"
+			if c.framing == "chunk1first" && len(body) > 1 {
+				script.pieces = [][]byte{body[:1], body[1:]}
+			} else if len(body) > 0 {
+				script.pieces = [][]byte{body}
+			}
+			if c.framing != "cl" {
+				script.declared = http.Header{}
+				for n, v := range declared {
+					script.declared[n] = v
+				}
+				script.undeclared = http.Header{}
+				for n, v := range undeclared {
+					script.undeclared[n] = v
+				}
+			}
+		} else if c.method == "HEAD" {
+			script.announceCL = true
+			script.pieces = [][]byte{body}
+		}
+	}
+	rg.setScript(id, script)
+	req := fmt.Sprintf("%s /resp HTTP/1.1\r\nHost: %s\r\nX-Case: %s\r\nTE: trailers\r\nConnection: close, TE\r\n\r\n", c.method, rg.proxyAddr, id)
+	raw, err := rg.roundTrip(id, []byte(req), 60*time.Second)
+	rg.takeSeen(id)
 	if len(raw) == 0 {
 		x.Violations = append(x.Violations, fmt.Sprintf("NORESPONSE: %s: %v", c, err))
 		return x
@@ -562,6 +652,9 @@ func main() {
 	defer func() {
 		if theRig != nil {
 			theRig.stop()
+		}
+		if theRigH2 != nil {
+			theRigH2.stop()
 		}
 	}()
 	vx.EnumMain(en)
